@@ -602,6 +602,24 @@ func genC07(r *Rng) *Scenario {
 	for j := 0; j < 3*n+3; j++ {
 		sc.Script = append(sc.Script, Out{Conn: 1, AtUs: t + int64(j), Kind: "release", Held: j})
 	}
+	if r.chance(0.15) {
+		// a Message struct that is published again keeps the identifier the first
+		// Publish put into it; the first call's context ends (the usual deferred
+		// cancel, some time later) while the second call waits for its own PUBACK
+		t += 3*int64(n) + 500
+		pid := uint16(0x7000 + r.IntN(0x0f00))
+		sc.Ops = append(sc.Ops, Op{AtUs: t, Actor: 50, Kind: "publish", QoS: 1, Topic: "a", Token: "again1", PresetID: pid})
+		a := len(sc.Ops) - 1
+		t += cfg.LatC2BUs + 50
+		sc.Script = append(sc.Script, Out{Conn: 1, AtUs: t, Kind: "release", Held: -1})
+		t += cfg.LatB2CUs + 200
+		sc.Ops = append(sc.Ops, Op{AtUs: t, Actor: 51, Kind: "publish", QoS: 1, Topic: "a", Token: "again2", PresetID: pid})
+		t += cfg.LatC2BUs + 100
+		sc.Ops = append(sc.Ops, Op{AtUs: t, Actor: -1, Kind: "cancel", Target: a})
+		t += 300
+		sc.Script = append(sc.Script, Out{Conn: 1, AtUs: t, Kind: "release", Held: -1})
+		t += cfg.LatB2CUs + 100
+	}
 	sc.HorizonUs = t + 5000
 	sc.EndUs = sc.HorizonUs + 5000
 	return sc
